@@ -276,8 +276,8 @@ def tSubMat [Sub K] (A : TMat K) (B : Mat K) : Except Err (Mat K) :=
                   | .ok d => .ok ⟨T.rows, T.cols, d⟩
 
 /-- `TransMat::operator+(const TransMat&)`: `TransMat T(this->rows(), this->cols()); add(M, T)`.
-    Models the code WITH notes/proposed/C15-transmat-ctor-dims.diff, i.e. the constructor
-    `TransMat(Index r, Index c) : MatBase(r, c, r*c)`.  (Before the fix the constructor swapped
+    Models the current code (fix f2f37a8d, formerly notes/proposed/C15-transmat-ctor-dims.diff), i.e. the
+    constructor `TransMat(Index r, Index c) : MatBase(r, c, r*c)`.  (Before the fix the constructor swapped
     its arguments and the result had `rows = this->cols()`, `cols = this->rows()`.) -/
 def tAddT [Add K] (A B : TMat K) : Except Err (TMat K) :=
   if A.rows ≠ B.rows ∨ A.cols ≠ B.cols then .error .badRank
@@ -317,8 +317,9 @@ def matMulT [Add K] [Mul K] [Zero K] (A : Mat K) (B : TMat K) : Except Err (Mat 
        | .ok d => .ok ⟨A.rows, B.cols, d⟩
 
 /-- `operator*(const TransMat&, const TransMat&)` : `a = ab (+= A.rows())`, `b = bb + j*B.rows() (++)`.
-    Models the code WITH notes/proposed/C15-transmat-transmat-stride.diff (before the fix the
-    stride was `B.cols()`: wrong for a non-square right operand, reads outside it when cols > rows) -/
+    Models the current code (fix cb8c13f3, formerly notes/proposed/C15-transmat-transmat-stride.diff;
+    before the fix the stride was `B.cols()`: wrong for a non-square right operand, reads outside it
+    when cols > rows) -/
 def tMulT [Add K] [Mul K] [Zero K] (A B : TMat K) : Except Err (Mat K) :=
   if A.cols ≠ B.rows then .error .badRank
   else match tabulate (A.rows * B.cols) (fun p =>
@@ -336,8 +337,8 @@ def tvecMulMat [Add K] [Mul K] [Zero K] (b : Vec K) (A : Mat K) : Except Err (Ve
   else tabulate A.cols (fun j => sumLoop A.rows (fun i => mulRd b i A.data (j + i * A.cols)))
 
 /-- `operator*(const TransVec&, const MatBase&)` : `for j ≤ A.cols(): for i ≤ A.rows(): s += b(i)*A(i,j)`.
-    Models the code WITH notes/proposed/C15-transvec-matbase-bound.diff (before the fix the inner
-    loop ran to `A.cols()`) -/
+    Models the current code (fix ef27491e, formerly notes/proposed/C15-transvec-matbase-bound.diff;
+    before the fix the inner loop ran to `A.cols()`) -/
 def tvecMulMB [Add K] [Mul K] [Zero K] (b : Vec K) (A : MB K) : Except Err (Vec K) :=
   if b.size ≠ A.rows then .error .badRank
   else tabulate A.cols (fun j0 =>
